@@ -150,6 +150,23 @@ func (f *trFunc) stmt(s ast.Stmt, ind string) []string {
 		}
 		c := f.cond(s.Cond)
 		out = append(out, f.flush(ind, &f.pre)...)
+		if f.spec != nil && f.spec.CondAssign && s.Init == nil && s.Else == nil && len(s.Body.List) == 1 {
+			if as, ok := s.Body.List[0].(*ast.AssignStmt); ok && as.Tok == token.ASSIGN && len(as.Lhs) == 1 && len(as.Rhs) == 1 {
+				if sel, ok := ast.Unparen(as.Lhs[0]).(*ast.SelectorExpr); ok {
+					if o := f.objOf(sel.X); o != nil && !f.opt[o] && f.alias[o] == nil && f.wrapOf(sel) == nil {
+						npre := len(f.pre)
+						val := f.coerceT(as.Rhs[0], f.lhsOpt(as.Lhs[0]), f.typeOf(as.Lhs[0]))
+						if len(f.pre) == npre && !monadic(val) {
+							n := f.nameOf(o)
+							f.assigned[o] = true
+							fld := f.fieldName(sel, s)
+							return append(out, fmt.Sprintf("%s%s := { %s with %s := if %s then %s else %s.%s }", ind, n, n, fld, c, val, n, fld))
+						}
+						f.pre = f.pre[:npre]
+					}
+				}
+			}
+		}
 		out = append(out, ind+"if "+c+" then")
 		out = append(out, f.block(s.Body.List, ind+"  ")...)
 		if s.Else != nil {
@@ -213,6 +230,66 @@ func (f *trFunc) exprStmt(x ast.Expr, at ast.Stmt, ind string) []string {
 		f.problem(at, "expression statement `%s`", f.src(x))
 		return nil
 	}
+	// delete(m, k)
+	if id, ok := ast.Unparen(c.Fun).(*ast.Ident); ok && id.Name == "delete" && len(c.Args) == 2 {
+		if _, isB := f.info.Uses[id].(*types.Builtin); isB {
+			m := mapOf(f.typeOf(c.Args[0]))
+			if m == nil || !isStringType(m.Key()) {
+				f.problem(at, "delete on %s", f.tr.pr.typeStr(f.typeOf(c.Args[0])))
+				return nil
+			}
+			if root := f.rootObj(c.Args[0]); root != nil {
+				for _, p := range f.params {
+					if p == root && mapOf(p.Type()) != nil {
+						f.problem(at, "delete from the map parameter `%s` (the caller's map would change)", p.Name())
+					}
+				}
+			}
+			key := f.arg(c.Args[1])
+			cont := f.arg(c.Args[0])
+			out = append(out, f.flush(ind, &f.pre)...)
+			out = append(out, f.assignTo0(c.Args[0], fmt.Sprintf("(mapDel %s %s)", cont, key), false, at, ind)...)
+			for _, k := range f.aliasKill(c.Args[0], key) {
+				out = append(out, ind+k)
+			}
+			return out
+		}
+	}
+	// sort.Sort(T(x)): an abstract sort for T's translated Less, passed as an explicit parameter
+	if xs := f.sortedExpr(c); xs != nil {
+		conv := ast.Unparen(c.Args[0]).(*ast.CallExpr)
+		tv := f.info.Types[conv.Fun]
+		var less *types.Func
+		ms := types.NewMethodSet(tv.Type)
+		for i := 0; i < ms.Len(); i++ {
+			if fn, ok := ms.At(i).Obj().(*types.Func); ok && fn.Name() == "Less" {
+				less = fn
+			}
+		}
+		var g *trFunc
+		if less != nil && f.tr.pr.inModule(less.Pkg()) {
+			g = f.tr.get(less.Origin())
+		}
+		if g == nil || len(g.problems) > 0 || len(g.extras) > 0 || len(g.mutParams) > 0 {
+			f.problem(at, "sort.Sort(%s): the Less method of the order is not a translated whitelisted function", f.src(conv.Fun))
+			return nil
+		}
+		_, tn := recvTypeName(tv.Type)
+		name := "srt_" + tn
+		f.addExtra(extraParam{name: name, typ: "(SortOf " + g.spec.Lean + ")", origin: "the sort used by `" + f.src(c) + "`"})
+		val := "(" + name + ".sort " + f.arg(xs) + ")"
+		out = append(out, f.flush(ind, &f.pre)...)
+		if root := f.rootObj(xs); root != nil {
+			for _, p := range f.params {
+				if p == root && p.Type().Underlying() != nil {
+					if _, isSl := p.Type().Underlying().(*types.Slice); isSl {
+						f.problem(at, "sort.Sort of the slice parameter `%s` (the caller's slice would change)", p.Name())
+					}
+				}
+			}
+		}
+		return append(out, f.assignTo0(xs, val, false, at, ind)...)
+	}
 	// in-place uint256 setter: z.Op(args)  ==>  z := op args
 	if sel, ok := ast.Unparen(c.Fun).(*ast.SelectorExpr); ok && isUint256(f.typeOf(sel.X)) && uint256Setter[sel.Sel.Name] {
 		if !f.isFreshU256(sel.X) {
@@ -240,8 +317,26 @@ func (f *trFunc) exprStmt(x ast.Expr, at ast.Stmt, ind string) []string {
 	return nil
 }
 
-// assignTo: `l = val` (define = the := form for new variables)
+// assignTo: `l = val` (define = the := form for new variables); a write through a pointer to a
+// slice / map element is followed by the write-back into the container
 func (f *trFunc) assignTo(l ast.Expr, val string, define bool, at ast.Node, ind string) []string {
+	out := f.assignTo0(l, val, define, at, ind)
+	if sel, ok := ast.Unparen(l).(*ast.SelectorExpr); ok {
+		if o := f.objOf(sel.X); o != nil && f.alias[o] != nil {
+			for _, w := range f.aliasWriteBack(o, at) {
+				out = append(out, ind+w)
+			}
+		}
+	}
+	return out
+}
+
+// assignToNoWB: assignment of a whole value to a variable / field, without indentation
+func (f *trFunc) assignToNoWB(l ast.Expr, val string, at ast.Node) []string {
+	return f.assignTo0(l, val, false, at, "")
+}
+
+func (f *trFunc) assignTo0(l ast.Expr, val string, define bool, at ast.Node, ind string) []string {
 	l = ast.Unparen(l)
 	switch l := l.(type) {
 	case *ast.Ident:
@@ -270,10 +365,33 @@ func (f *trFunc) assignTo(l ast.Expr, val string, define bool, at ast.Node, ind 
 		fld := f.fieldName(l, at)
 		n := f.nameOf(o)
 		f.assigned[o] = true
+		if !f.synth[l] {
+			if w := f.wrapOf(l); w != nil {
+				val = "(" + val + ")." + w.Proj
+			}
+		}
 		if f.opt[o] {
 			return []string{fmt.Sprintf("%s%s := some { (← gderef %s) with %s := %s }", ind, n, n, fld, val)}
 		}
 		return []string{fmt.Sprintf("%s%s := { %s with %s := %s }", ind, n, n, fld, val)}
+	case *ast.IndexExpr:
+		if m := mapOf(f.typeOf(l.X)); m != nil && isStringType(m.Key()) {
+			key := f.arg(l.Index)
+			cont := f.arg(l.X)
+			var out []string
+			if root := f.rootObj(l.X); root != nil {
+				for _, p := range f.params {
+					if p == root && mapOf(p.Type()) != nil {
+						f.problem(at, "assignment into the map parameter `%s` (the caller's map would change)", p.Name())
+					}
+				}
+			}
+			out = append(out, f.assignTo0(l.X, fmt.Sprintf("(mapSet %s %s %s)", cont, key, paren(val)), false, at, ind)...)
+			for _, k := range f.aliasKill(l.X, key) {
+				out = append(out, ind+k)
+			}
+			return out
+		}
 	}
 	f.problem(at, "assignment to `%s`", f.src(l))
 	return nil
@@ -282,6 +400,9 @@ func (f *trFunc) assignTo(l ast.Expr, val string, define bool, at ast.Node, ind 
 func (f *trFunc) lhsOpt(l ast.Expr) bool {
 	if o := f.objOf(l); o != nil {
 		return f.opt[o]
+	}
+	if sel, ok := ast.Unparen(l).(*ast.SelectorExpr); ok {
+		return f.isOptionalField(sel)
 	}
 	return false
 }
@@ -311,6 +432,55 @@ func (f *trFunc) assignStmt(s *ast.AssignStmt, ind string) []string {
 		out = append(out, f.flush(ind, &f.pre)...)
 		return append(out, f.assignTo(s.Lhs[0], val, false, s, ind)...)
 	}
+	if a := f.aliasBind[s]; a != nil {
+		return f.aliasBinding(s, a, ind)
+	}
+	// v, ok := m[k]
+	if len(s.Lhs) == 2 && len(s.Rhs) == 1 {
+		if ix, ok := ast.Unparen(s.Rhs[0]).(*ast.IndexExpr); ok && mapOf(f.typeOf(ix.X)) != nil {
+			m := mapOf(f.typeOf(ix.X))
+			g := f.expr(ix) // (mapGet ..) or ((mapGet ..).getD z)
+			raw := "(mapGet " + f.arg(ix.X) + " " + f.arg(ix.Index) + ")"
+			out = append(out, f.flush(ind, &f.pre)...)
+			t := f.tmp("__m")
+			out = append(out, fmt.Sprintf("%slet %s := %s", ind, t, raw))
+			v := t
+			if !isStructPtr(m.Elem()) {
+				_ = g
+				z, err := f.tr.zeroValue(m.Elem())
+				if err != nil {
+					f.problem(s, "%v", err)
+					z = "default"
+				}
+				v = "(" + t + ".getD " + z + ")"
+			}
+			if id, ok := s.Lhs[0].(*ast.Ident); !ok || id.Name != "_" {
+				out = append(out, f.assignTo(s.Lhs[0], v, define, s, ind)...)
+			}
+			if id, ok := s.Lhs[1].(*ast.Ident); !ok || id.Name != "_" {
+				out = append(out, f.assignTo(s.Lhs[1], t+".isSome", define, s, ind)...)
+			}
+			return out
+		}
+	}
+	// results of an oracle call
+	if len(s.Lhs) > 1 && len(s.Rhs) == 1 {
+		if c, ok := ast.Unparen(s.Rhs[0]).(*ast.CallExpr); ok {
+			if name := f.oracleFor(c); name != "" {
+				for i, l := range s.Lhs {
+					if id, ok := l.(*ast.Ident); ok && id.Name == "_" {
+						continue
+					}
+					val := proj(name, i, len(s.Lhs))
+					if tup, ok := f.typeOf(c).(*types.Tuple); ok && i < tup.Len() && isStructPtr(tup.At(i).Type()) && !f.lhsOpt(l) {
+						val = "(← gderef " + val + ")"
+					}
+					out = append(out, f.assignTo(l, val, define, s, ind)...)
+				}
+				return out
+			}
+		}
+	}
 	if len(s.Lhs) == len(s.Rhs) {
 		if len(s.Lhs) == 1 {
 			if id, ok := s.Lhs[0].(*ast.Ident); ok && id.Name == "_" {
@@ -320,7 +490,11 @@ func (f *trFunc) assignStmt(s *ast.AssignStmt, ind string) []string {
 			}
 			val := f.coerceT(s.Rhs[0], f.lhsOpt(s.Lhs[0]), f.typeOf(s.Lhs[0]))
 			out = append(out, f.flush(ind, &f.pre)...)
-			return append(out, f.assignTo(s.Lhs[0], val, define, s, ind)...)
+			out = append(out, f.assignTo(s.Lhs[0], val, define, s, ind)...)
+			if o := f.objOf(s.Lhs[0]); o != nil && f.alias[o] != nil && f.alias[o].flag != "" {
+				out = append(out, ind+f.alias[o].flag+" := false") // re-bound to a fresh object / nil: detached
+			}
+			return out
 		}
 		// parallel assignment: evaluate all right-hand sides first
 		var tmps []string
@@ -409,6 +583,9 @@ func (f *trFunc) rangeStmt(s *ast.RangeStmt, ind string) []string {
 	if t == nil {
 		f.problem(s, "range")
 		return nil
+	}
+	if m := mapOf(t); m != nil && isStringType(m.Key()) {
+		return f.rangeMap(s, m, ind)
 	}
 	if _, ok := t.Underlying().(*types.Slice); !ok || isByteSlice(t) {
 		f.problem(s, "range over %s", f.tr.pr.typeStr(t))
@@ -589,4 +766,203 @@ func (f *trFunc) switchStmt(s *ast.SwitchStmt, ind string) []string {
 		out = append(out, cur+"pure ()")
 	}
 	return out
+}
+
+// aliasBinding: the binding statement of a pointer to a slice / map element that is written through
+func (f *trFunc) aliasBinding(s *ast.AssignStmt, a *aliasInfo, ind string) []string {
+	var out []string
+	rhs := ast.Unparen(s.Rhs[0])
+	p := a.obj
+	wrapOpt := func(v string) string {
+		if f.opt[p] {
+			return "(some " + v + ")"
+		}
+		return v
+	}
+	switch r := rhs.(type) {
+	case *ast.IndexExpr:
+		cont := f.arg(r.X)
+		if a.isMap {
+			key := f.expr(r.Index)
+			out = append(out, f.flush(ind, &f.pre)...)
+			out = append(out, fmt.Sprintf("%slet %s : String := %s", ind, a.capture, key))
+			t := f.tmp("__m")
+			out = append(out, fmt.Sprintf("%slet %s := (mapGet %s %s)", ind, t, cont, a.capture))
+			if !f.opt[p] {
+				f.problem(s, "`%s` is bound to a map element but treated as never nil", p.Name())
+			}
+			out = append(out, f.assignTo0(s.Lhs[0], t, true, s, ind)...)
+			if len(s.Lhs) == 2 {
+				if id, ok := s.Lhs[1].(*ast.Ident); !ok || id.Name != "_" {
+					out = append(out, f.assignTo0(s.Lhs[1], t+".isSome", true, s, ind)...)
+				}
+			}
+		} else {
+			idx := f.intArg(r.Index)
+			out = append(out, f.flush(ind, &f.pre)...)
+			out = append(out, fmt.Sprintf("%slet %s : Int := %s", ind, a.capture, idx))
+			out = append(out, f.assignTo0(s.Lhs[0], wrapOpt(fmt.Sprintf("(← gidx %s %s)", cont, a.capture)), true, s, ind)...)
+		}
+	case *ast.CallExpr:
+		g, _ := f.callee(r)
+		if g == nil || g.finder == nil || len(g.mutParams) > 0 {
+			f.problem(s, "binding of `%s`", p.Name())
+			return nil
+		}
+		v := f.expr(r)
+		out = append(out, f.flush(ind, &f.pre)...)
+		t := f.tmp("__t")
+		out = append(out, fmt.Sprintf("%slet %s := %s", ind, t, v))
+		out = append(out, fmt.Sprintf("%slet %s : Int := %s.1", ind, a.capture, t))
+		if id, ok := s.Lhs[0].(*ast.Ident); !ok || id.Name != "_" {
+			out = append(out, f.assignTo0(s.Lhs[0], t+".1", true, s, ind)...)
+		}
+		val := t + ".2"
+		if g.resOpt[1] && !f.opt[p] {
+			val = "(← gderef " + val + ")"
+		} else if !g.resOpt[1] && f.opt[p] {
+			val = "(some " + val + ")"
+		}
+		out = append(out, f.assignTo0(s.Lhs[1], val, true, s, ind)...)
+	default:
+		f.problem(s, "binding of `%s`", p.Name())
+		return nil
+	}
+	if a.flag != "" {
+		out = append(out, fmt.Sprintf("%slet mut %s : Bool := true", ind, a.flag))
+	}
+	return out
+}
+
+// rangeMap: `for k, v := range m` over a map[string]V.  Go's iteration order is unspecified, so only
+// loops whose effect does not depend on it are translated: the body may only add to / subtract from
+// integer accumulators declared outside the loop (possibly under conditions that do not read them).
+func (f *trFunc) rangeMap(s *ast.RangeStmt, m *types.Map, ind string) []string {
+	var out []string
+	if s.Tok == token.ASSIGN {
+		f.problem(s, "range with assignment to existing variables")
+		return nil
+	}
+	var keyObj, valObj types.Object
+	if id, ok := s.Key.(*ast.Ident); ok && id.Name != "_" {
+		keyObj = f.info.Defs[id]
+	}
+	if s.Value != nil {
+		if id, ok := s.Value.(*ast.Ident); ok && id.Name != "_" {
+			valObj = f.info.Defs[id]
+		}
+	}
+	if why := f.orderDependent(s.Body, keyObj, valObj); why != "" {
+		f.problem(s, "range over a map whose body depends on the iteration order (%s)", why)
+		return nil
+	}
+	xs := f.expr(s.X)
+	out = append(out, f.flush(ind, &f.pre)...)
+	e := f.tmp("__e")
+	out = append(out, fmt.Sprintf("%sfor %s in %s do", ind, e, xs))
+	if keyObj != nil {
+		f.rangeVal[keyObj] = true
+		out = append(out, fmt.Sprintf("%s  let %s : String := %s.1", ind, f.nameOf(keyObj), e))
+	}
+	if valObj != nil {
+		f.rangeVal[valObj] = true
+		out = append(out, fmt.Sprintf("%s  let %s := %s.2", ind, f.nameOf(valObj), e))
+	}
+	root := f.rootObj(s.X)
+	before := f.assigned[root]
+	f.assigned[root] = false
+	f.loopDepth++
+	f.fuelFlag = append(f.fuelFlag, "")
+	f.fuelPost = append(f.fuelPost, false)
+	f.wbStack = append(f.wbStack, "")
+	body := f.block(s.Body.List, ind+"  ")
+	f.wbStack = f.wbStack[:len(f.wbStack)-1]
+	f.fuelFlag = f.fuelFlag[:len(f.fuelFlag)-1]
+	f.fuelPost = f.fuelPost[:len(f.fuelPost)-1]
+	f.loopDepth--
+	if root != nil && f.assigned[root] {
+		f.problem(s, "the ranged map `%s` is modified inside the loop", f.src(s.X))
+	}
+	f.assigned[root] = before || f.assigned[root]
+	return append(out, body...)
+}
+
+// orderDependent: "" when the loop body is a commutative accumulation, otherwise the reason
+func (f *trFunc) orderDependent(body *ast.BlockStmt, keyObj, valObj types.Object) string {
+	accs := map[types.Object]bool{}
+	why := ""
+	var stmts func(list []ast.Stmt)
+	pure := []ast.Expr{}
+	stmts = func(list []ast.Stmt) {
+		for _, st := range list {
+			switch s := st.(type) {
+			case *ast.AssignStmt:
+				if (s.Tok != token.ADD_ASSIGN && s.Tok != token.SUB_ASSIGN) || len(s.Lhs) != 1 {
+					why = "statement `" + f.srcStmt(s) + "`"
+					return
+				}
+				o := f.objOf(s.Lhs[0])
+				if o == nil || intKindOf(o.Type()) == notInt || (o.Pos() >= body.Pos() && o.Pos() < body.End()) {
+					why = "`" + f.src(s.Lhs[0]) + "` is not an integer accumulator declared outside the loop"
+					return
+				}
+				accs[o] = true
+				pure = append(pure, s.Rhs[0])
+			case *ast.IncDecStmt:
+				o := f.objOf(s.X)
+				if o == nil || intKindOf(o.Type()) == notInt || (o.Pos() >= body.Pos() && o.Pos() < body.End()) {
+					why = "`" + f.src(s.X) + "` is not an integer accumulator declared outside the loop"
+					return
+				}
+				accs[o] = true
+			case *ast.IfStmt:
+				if s.Init != nil {
+					why = "if with an init statement"
+					return
+				}
+				pure = append(pure, s.Cond)
+				stmts(s.Body.List)
+				switch e := s.Else.(type) {
+				case nil:
+				case *ast.BlockStmt:
+					stmts(e.List)
+				case *ast.IfStmt:
+					stmts([]ast.Stmt{e})
+				}
+			case *ast.EmptyStmt:
+			default:
+				why = fmt.Sprintf("statement %T", st)
+				return
+			}
+			if why != "" {
+				return
+			}
+		}
+	}
+	stmts(body.List)
+	if why != "" {
+		return why
+	}
+	for _, e := range pure {
+		ast.Inspect(e, func(n ast.Node) bool {
+			switch x := n.(type) {
+			case *ast.Ident:
+				if o := f.info.Uses[x]; o != nil && accs[o] {
+					why = "`" + f.src(e) + "` reads the accumulator `" + x.Name + "`"
+				}
+			case *ast.CallExpr:
+				if g, _ := f.callee(x); g != nil && len(g.mutParams) > 0 {
+					why = "call `" + f.src(x) + "` updates its arguments"
+				}
+			case *ast.FuncLit:
+				why = "function literal"
+			}
+			return true
+		})
+	}
+	return why
+}
+
+func (f *trFunc) srcStmt(s *ast.AssignStmt) string {
+	return f.src(s.Lhs[0]) + " " + s.Tok.String() + " " + f.src(s.Rhs[0])
 }
